@@ -552,7 +552,7 @@ def run_case(case):
     random.seed(case['seed'])            # ServerBase.assign_tasks uses the global generator
     warnings.simplefilter('ignore')      # "coroutine was never awaited" of tasks that are never run
     sim = R.RealSys(case['nw'], case['progs'])
-    out = dict(idx=case['idx'], lines=['reset %d %s %d' % (case['nw'], R.fmt(case['progs']), 1 if case.get('fx') else 0)], real=[], events=[],
+    out = dict(idx=case['idx'], lines=['reset %d %s %d %d' % (case['nw'], R.fmt(case['progs']), 1 if case.get('fx') else 0, 1 if case.get('f8') else 0)], real=[], events=[],
                findings=[], quiescent=False, error=None)
     try:
         orc = Oracle(sim, case)
@@ -643,6 +643,20 @@ def probe_completion_variant():
         w = sim.workers[0]
         ncancel = sum(1 for m, _ in w._conn.q if m == R.M.CANCEL)
         return ncancel == 2 and not w._mailboxes
+    finally:
+        sim.close()
+
+
+def probe_skip_variant():
+    """Does _get_next_ready_task forget a task it discards because of a cancelled breadcrumb (/repo 5dfab15: the
+    model's f8 = 1) or leave it in _tasks (before: f8 = 0)?  Probed with the D8 scenario."""
+    import rtsim_cancel as R
+    sim = R.RealSys(1, [[['s', 1], ['a', 0]], []])
+    try:
+        for ev in (('cl', 0, 'connect'), ('cl', 0, 'submit', 0, 0), ('down', 0), ('step', 0), ('cl', 0, 'cancel', 0),
+                   ('down', 0), ('up', 0), ('down', 0), ('step', 0)):
+            sim.do(ev)
+        return not sim.workers[0]._tasks
     finally:
         sim.close()
 
@@ -835,6 +849,8 @@ def run(ctx: vf.Ctx):
                    'harness/rtsim_cancel.py (fake connections, recording wrappers, script interpreter)',
                    'harness/props/c12.py oracle (own ancestry record)']
     fx = probe_completion_variant()
+    f8 = probe_skip_variant()
+    ctx.cov['skip_variant'] = 'skipped task forgotten (f8=1, /repo 5dfab15)' if f8 else 'skipped task left in _tasks (f8=0, D8)'
     ctx.cov['completion_loop_variant'] = 'fixes/D14.patch (fx=1)' if fx else '/repo as released, D14 present (fx=0)'
     cases = []
     cdir = vf.ROOT / 'corpus' / 'C12'
@@ -858,6 +874,7 @@ def run(ctx: vf.Ctx):
         ctx.cov['exhaustive_scenarios'] = complete
     for c in cases:
         c['fx'] = fx
+        c['f8'] = f8
     outs, model_out = run_all(ctx, cases)
     nmis = compare_and_report(ctx, cases, outs, model_out)
     ctx.cov['model_events'] = sum(len(o['events']) for o in outs)
@@ -882,5 +899,6 @@ def replay(ctx, data):
     case = dict(case)
     case.setdefault('idx', 'replay')
     case['fx'] = probe_completion_variant()
+    case['f8'] = probe_skip_variant()
     outs, model_out = run_all(ctx, [case])
     compare_and_report(ctx, [case], outs, model_out)
